@@ -17,7 +17,7 @@ samples and two cells of length ≠ 4 are at least **8 cells apart** (index diff
 this also covers bounded jitter of the cell boundaries by one sample).  ±0.25 % (`|T - 4| ≤ 0.01`) has them at least
 100 cells apart (`floor_cells_driftOk`: proved for the `⌊φ + k T⌋` model with exact scaled integers, every
 `T ∈ [3.99, 4.01]`, every phase `φ`, every number of cells), so the envelope is about 12 times wider than the
-property requires (`DriftOk` admits a constant offset of up to ±3 %).  The other ingredient is bit stuffing: a line
+property requires (`DriftOk` allows a constant offset of up to ±3 %).  The other ingredient is bit stuffing: a line
 transition at least every seven cells (`runsOk 7`, from `no_seven_ones_on_wire`).
 
 Theorems (from any idle state, any sampling phase `k` against the receiver's idle bit clock, every byte list, every
@@ -473,5 +473,41 @@ example : trackable (packetCells (((nrzi true (syncBits ++ ([false] ++ List.repl
     ((run (idleSt 0 false) (rxInputD 1 (((nrzi true (syncBits ++ ([false] ++ List.replicate 7 true ++ [false]))).map lvl ++
       [Sym.SE0, Sym.SE0]).zip [4, 4, 5, 4, 4, 4, 4, 4, 4, 4, 4, 4, 4, 4, 4, 4, 4, 3, 4]) 0)).1).b.rxErr = true := by
   decide +kernel
+
+/-! ### any number of packets -/
+
+/-- a packet on a drifting line: its bytes, its bit cells (SYNC … second SE0), the number `k` of idle samples before it
+(sampling phase) and `4 (m + 3) + 3` idle samples after it -/
+structure DPkt where
+  bytes : List Nat
+  cells : List (Sym × Nat)
+  k : Nat
+  m : Nat
+
+/-- the environment hypotheses of `rx_pipeline_decodes_encode_drift` -/
+def DPkt.Ok (p : DPkt) : Prop :=
+  (∀ b ∈ p.bytes, b < 256) ∧ p.cells.map (·.1) ++ [.J] = encode p.bytes ∧ DriftOk (p.cells.map (·.2))
+
+def DPkt.input (p : DPkt) : List In := rxInputD p.k p.cells p.m
+def DPkt.events (p : DPkt) : List Ev := [.start] ++ p.bytes.map Ev.byte ++ [.fin]
+
+/-- **any number of packets, each with its own drift pattern and sampling phase**: from an idle state, the events written
+into the clock-domain crossing are, packet after packet, start, the bytes, end; the path ends in an idle state. -/
+theorem rx_packets_drift (ps : List DPkt) (h : ∀ p ∈ ps, p.Ok) : ∀ (c : Nat) (e : Bool), c ≤ 6 →
+    events (run (idleSt c e) (ps.flatMap DPkt.input)).2 = ps.flatMap DPkt.events ∧
+    ∃ c' e', c' ≤ 6 ∧ (run (idleSt c e) (ps.flatMap DPkt.input)).1 = idleSt c' e' := by
+  induction ps with
+  | nil => intro c e hc; exact ⟨rfl, c, e, hc, rfl⟩
+  | cons p ps ih =>
+    intro c e hc
+    obtain ⟨hb, hs, hd⟩ := h p (by simp)
+    obtain ⟨h1, _, c1, hc1, h3⟩ := rx_pipeline_decodes_encode_drift p.bytes hb p.cells hs hd c e hc p.k p.m
+    obtain ⟨i1, c2, e2, hc2, i2⟩ := ih (fun q hq => h q (by simp [hq])) c1 false hc1
+    simp only [List.flatMap_cons, run_append, events_append, DPkt.input, DPkt.events] at *
+    rw [h3]
+    exact ⟨by rw [h1, i1], c2, e2, hc2, i2⟩
+
+example : (⟨[0xA5], cellsOf [0xA5] [4, 4, 4, 5, 4, 4, 4, 4, 4, 4, 4, 4, 5, 4, 4, 4, 4, 4], 2, 0⟩ : DPkt).Ok := by
+  refine ⟨by decide, by decide, by decide⟩
 
 end LunaVerif.FsRx
